@@ -457,15 +457,15 @@ func (a *asset) generateTimelineEntries(repID string, wt wrapTimes, atoMS int) s
 		mediaTimescale: uint32(rep.MediaTimescale),
 	}
 
-	ato := uint64(atoMS * rep.MediaTimescale / 1000)
-
-	relStartTime := uint64(wt.startRelMS * rep.MediaTimescale / 1000)
+	// The offset is added in milliseconds, before the conversion to the media timescale, so that
+	// only one rounding (floor) is made. Otherwise a segment can be missed by up to one tick.
+	relStartTime := uint64((wt.startRelMS + atoMS) * rep.MediaTimescale / 1000)
 	relStartIdx := 0
-	if relStartTime+ato < segs[0].EndTime {
+	if relStartTime < segs[0].EndTime {
 		wt.startWraps--
 		relStartIdx = nrSegs - 1
 	} else {
-		relStartIdx = findFirstFinishedSegIdx(segs, relStartTime+ato)
+		relStartIdx = findFirstFinishedSegIdx(segs, relStartTime)
 		if relStartIdx < 0 {
 			wt.startWraps--
 			relStartIdx = nrSegs - 1
@@ -476,13 +476,13 @@ func (a *asset) generateTimelineEntries(repID string, wt wrapTimes, atoMS int) s
 		wt.startWraps = 0
 	}
 
-	relNowTime := uint64(wt.nowRelMS * rep.MediaTimescale / 1000)
+	relNowTime := uint64((wt.nowRelMS + atoMS) * rep.MediaTimescale / 1000)
 	relNowIdx := 0
-	if relNowTime+ato < segs[0].EndTime {
+	if relNowTime < segs[0].EndTime {
 		wt.nowWraps--
 		relNowIdx = nrSegs - 1
 	} else {
-		relNowIdx = findFirstFinishedSegIdx(segs, relNowTime+ato)
+		relNowIdx = findFirstFinishedSegIdx(segs, relNowTime)
 		if relNowIdx < 0 {
 			wt.nowWraps--
 			relNowIdx = nrSegs - 1
